@@ -78,11 +78,20 @@ def directiveOfPart (part : Str) : Option (Str × Str) :=
     | some (k, v) => (k, trimString v)
   if key.isEmpty then none else some (lowerASCII key, value)
 
-/-- parseDirectives: maps.Collect over directivesSeq2 (later occurrence wins) -/
+def sNoCache : Str := str% "no-cache"
+
+/-- one assignment of parseDirectives: later occurrence wins, except that an unqualified
+    no-cache is kept -/
+def directiveInsert (m : Directives) (k v : Str) : Directives :=
+  match alookup k m with
+  | some prev => if k = sNoCache && (parseQuotedString prev).isEmpty then m else ainsert k v m
+  | none => ainsert k v m
+
+/-- parseDirectives -/
 def parseDirectives (s : Str) : Directives :=
   (trimmedCSV s).foldl (fun m part => match directiveOfPart part with
     | none => m
-    | some (k, v) => ainsert k v m) []
+    | some (k, v) => directiveInsert m k v) []
 
 /-- cacheControlValue + ParseCC…Directives; `none` models the nil map (same lookups as empty) -/
 def parseCC (h : Header) : Directives :=
@@ -94,6 +103,7 @@ def parseDeltaSeconds (s : Str) : Option Int :=
   match s with
   | [] => none
   | '-' :: _ => none
+  | '+' :: _ => none
   | _ =>
     match parseInt64 s with
     | .syntaxErr => none
